@@ -83,7 +83,12 @@ func newServerSocket(
 		s.recovered = true
 		s.Join(previousSession.Rooms...)
 		for _, missedPacket := range previousSession.MissedPackets {
-			buffers, err := s.parser.Encode(missedPacket.Header, &missedPacket.Data)
+			// Encoding transforms the header and the values in place (see sessionAwareAdapter.Broadcast).
+			// The packet stays in the log (other sessions may need it), so encode a copy.
+			header := *missedPacket.Header
+			data := make([]any, len(missedPacket.Data))
+			copy(data, missedPacket.Data)
+			buffers, err := s.parser.Encode(&header, &data)
 			if err != nil {
 				return nil, err
 			}
